@@ -111,6 +111,7 @@ pub struct Model {
     pub foreign: bool,                         // environment planted records in foreign buckets: listing not compared
     pub index_faulted: bool,
     pub cleared: bool,
+    pub cache_dir: bool, // the cache directory itself exists as far as the history tells (something was stored, or a clear succeeded, and nothing outside the library removed it since)
     pub index_dir: bool, // index-v5 exists as far as the history tells (an insert happened since the last clear)
 }
 
@@ -311,6 +312,7 @@ impl<'a> Interp<'a> {
             e.orig = data.to_vec();
             e.state = CState::Pristine;
             e.is_link = false;
+            self.m.cache_dir = true;
         }
     }
 
@@ -320,6 +322,7 @@ impl<'a> Interp<'a> {
         self.m.inserted.push(e.clone());
         self.m.keys.insert(e.key.clone(), Some(e));
         self.m.index_dir = true;
+        self.m.cache_dir = true;
     }
 
     fn model_tombstone(&mut self, key: &str, time: u128) {
@@ -327,6 +330,7 @@ impl<'a> Interp<'a> {
         self.m.records.entry(rel).or_default().push(Rec { key: key.to_string(), integrity: None, time, size: 0, metadata: Value::Null, raw: None });
         self.m.keys.insert(key.to_string(), None);
         self.m.index_dir = true;
+        self.m.cache_dir = true;
     }
 
     pub fn expected_entry(&self, key: &str) -> Option<Entry> {
@@ -659,7 +663,9 @@ impl<'a> Interp<'a> {
         self.abnormal_check(st, &r);
         if st.get("hostile").is_some() {
             self.probe("hostile_step");
+            self.m.cache_dir = false;
         }
+
         if self.lenient {
             return;
         }
@@ -1259,7 +1265,9 @@ impl<'a> Interp<'a> {
         let flav = Self::flav(st);
         let existed = self.m.index_dir || !self.m.keys.is_empty() || !self.m.content.is_empty() || (!self.deferred && self.cache.exists());
         if r["r"] != "ok" {
-            if existed && (self.deferred || self.cache.is_dir()) {
+            // by the history (not by a look at the disk: a clear that removed the directory itself must not excuse the
+            // failure of the next one) the cache directory is there
+            if (existed && (self.deferred || self.cache.is_dir())) || self.m.cache_dir {
                 self.viol("removal", format!("removal/clear/{}/{}", flav, Self::bad_result_detail(r)), format!("clear failed: {}", r));
             }
             return;
@@ -1458,6 +1466,9 @@ impl<'a> Interp<'a> {
         let act = st["act"].as_str().unwrap_or("").to_string();
         let e = self.resolve_env(st);
         let path = lexical_normalize(&pdec(e["path"].as_str().unwrap_or("")));
+        if path == self.cache || (!path.starts_with(&self.cache) && self.cache.starts_with(&path)) || st.get("hostile").is_some() {
+            self.m.cache_dir = false;
+        }
         if st.get("hostile").is_some() {
             self.probe("hostile_step");
         }
